@@ -503,24 +503,32 @@ def run(chk, replay=None):
     # [R] spec -> code
     jobs = []
     path_depth = 3 if thorough else 2
-    sim_n = 20000 if thorough else 1200
+    sim_n = 8000 if thorough else 1200
     sim_depth = 14 if thorough else 10
-    with cf.ThreadPoolExecutor(max_workers=12) as ex:
-        for name in CONFIGS:
-            jobs.append(ex.submit(emit_behaviours, name, path_depth, None, 0, (1,)))
-            nsim = sim_n if name not in ("scalar", "vec3dyad") else sim_n // 4
-            chunks = 4 if thorough else 1
-            for c in range(chunks):
-                jobs.append(ex.submit(emit_behaviours, name, sim_depth, nsim // chunks, chk.seed * 101 + 7 + c, (1, 3)))
-        for j in cf.as_completed(jobs):
-            name, r = j.result()
-            chk.transitions += r.generated
-            chk.tlc_runs.append({"module": "Signals", "label": "emit %s" % name, "generated": r.generated,
-                                 "distinct": r.distinct, "wall_s": round(r.wall, 2)})
-            behs = [v[0] for tag, v in r.printed if tag == "BEH"]
-            if not behs:
-                raise tlc.TLCError("no behaviours emitted for %s\n%s" % (name, r.stdout[-1500:]))
-            check_behaviours(chk, name, behs)
+    # emission runs are taken a few at a time and their results dropped as soon as they are replayed (memory stays bounded)
+    plan = []
+    for name in CONFIGS:
+        plan.append((name, path_depth, None, 0, (1,)))
+        nsim = sim_n if name not in ("scalar", "vec3dyad") else sim_n // 4
+        chunks = 8 if thorough else 1
+        for c in range(chunks):
+            plan.append((name, sim_depth, nsim // chunks, chk.seed * 101 + 7 + c, (1, 3)))
+    width = 4
+    for k in range(0, len(plan), width):
+        with cf.ThreadPoolExecutor(max_workers=width) as ex:
+            futs = [ex.submit(emit_behaviours, *args) for args in plan[k:k + width]]
+            for j in cf.as_completed(futs):
+                name, r = j.result()
+                chk.transitions += r.generated
+                chk.tlc_runs.append({"module": "Signals", "label": "emit %s" % name, "generated": r.generated,
+                                     "distinct": r.distinct, "wall_s": round(r.wall, 2)})
+                behs = [v[0] for tag, v in r.printed if tag == "BEH"]
+                if not behs:
+                    raise tlc.TLCError("no behaviours emitted for %s\n%s" % (name, r.stdout[-1500:]))
+                r.printed = []
+                check_behaviours(chk, name, behs)
+                del behs, r
+            del futs
     # [T] code -> spec
     ntr = 4000 if thorough else 300
     traces = record_traces(chk.seed + 1, ntr)
